@@ -50,7 +50,7 @@ def build(units, solvable=False):
             kw = {} if u[1] == 'unset' else {'rotation': u[1]}
             g = groove('oval' if npass % 2 == 0 else 'round')
             npass += 1
-            objs.append(RollPass(label=f"p{len(objs)}", roll=Roll(groove=g, nominal_radius=160e-3, rotational_frequency=1), gap=2e-3, **kw))
+            objs.append((_PASSCLS[0] or RollPass)(label=f"p{len(objs)}", roll=Roll(groove=g, nominal_radius=160e-3, rotational_frequency=1), gap=2e-3, **kw))
         elif u[0] == 'transport':
             objs.append(Transport(label=f"t{len(objs)}", duration=1))
         elif u[0] == 'rotator':
@@ -65,6 +65,7 @@ def build(units, solvable=False):
 
 
 _BUILDS = [0]
+_PASSCLS = [None]
 
 
 def observe(units, auto):
@@ -393,6 +394,27 @@ def run(chk):
             if not (type(got) is type(exp) and got == exp) and not (not isinstance(exp, bool) and not isinstance(got, bool) and got == exp):
                 if not chk.failures:
                     chk.fail('rotation', f"pass {i} of {units} (auto={auto}) has rotation {got!r}, expected {exp!r}", {'units': units, 'auto': auto})
+    # the decision does not depend on the stated angle of the explicit rotator in front (a rotator stated as 0 is a rotator), nor on the kind of pass
+    from pyroll.core import ThreeRollPass, RollPass as _TwoRollPass
+    P0, T0 = ('pass', 'unset'), ('transport',)
+    for cls in (_TwoRollPass, ThreeRollPass):
+        _PASSCLS[0] = cls
+        try:
+            for a in (0, 0.0, 90, 180, -90, 360, 1e-9):
+                for units in ([P0, ('rotator', a), P0], [P0, ('rotator', a), T0, P0], [('rotator', a), P0], [P0, T0, ('rotator', a), ('other',), P0, P0],
+                              [P0, ('rotator', a), ('pass', 30), T0, P0]):
+                    for auto in (True, False):
+                        obs = observe(units, auto)
+                        chk.cov['evaluations'] += 1
+                        pi = [i for i, u in enumerate(units) if u[0] == 'pass']
+                        for j, i in enumerate(pi):
+                            exp, got = spec_rotation(units, i, auto), obs[j]
+                            if not (type(got) is type(exp) and got == exp) and not (not isinstance(exp, bool) and not isinstance(got, bool) and got == exp):
+                                if not chk.failures:
+                                    chk.fail('rotation', f"{cls.__name__} at position {i} of {units} (auto={auto}) has rotation {got!r}, expected {exp!r}",
+                                             {'units': units, 'auto': auto, 'pass_class': cls.__name__})
+        finally:
+            _PASSCLS[0] = None
     chk.cov['distinct_nontrivial'] += len({json.dumps(c, default=str) for c in cases})
     chk.cov['exhaustive_upto_length'] = maxlen
     chk.cov['exhaustive'] = False
